@@ -22,6 +22,33 @@ def _eq(entry, a, b):
   return mc.close(a, b, 1e-7)
 
 
+def bounded_merge_states(p):
+  """AggregateFn.merge_states over 2..5 states: only the first state may be modified."""
+  import collections
+  from ml_metrics._src.aggregates import base, rolling_stats as rs
+  S = Search(p, dict(states='2..5', aggregates='Counter, MeanAndVariance, UnboundedSampler via MergeableMetricAggFn'))
+  import numpy as np
+  cases = [('Counter', lambda: rs.Counter().as_agg_fn(), [list('ab'), list('b'), list('ccc'), list('dddd'), list('e')], lambda st: dict(st.result())),
+           ('MeanAndVariance', lambda: rs.MeanAndVariance().as_agg_fn(), [[1.0, 2.0], [3.0], [4.0, 6.0], [8.0], [9.0, 1.0]], lambda st: [float(st.count), float(st.mean), float(st.var)]),
+           ('UnboundedSampler', lambda: rs.UnboundedSampler().as_agg_fn(), [[1], [2, 3], [4], [5, 6], [7]], lambda st: mz._norm(st.result()))]
+  for name, mk, data, view in cases:
+    for n in range(2, 6):
+      fn = mk()
+      states = []
+      for d in data[:n]:
+        st = fn.create_state()
+        st = fn.update_state(st, np.array(d) if name == 'MeanAndVariance' else d)
+        states.append(st)
+      before = [view(mz.snapshot(st)) for st in states]
+      merged = expect(lambda: fn.merge_states(states))
+      after = [view(st) for st in states]
+      changed = [i for i in range(1, n) if not mc.close(after[i], before[i])]
+      if not S.check(merged[0] == 'ok' and not changed, dict(aggregate=name, states=n, law='merge_states modifies only its first state'),
+                     f'{name}: merge_states over {n} states changed operand(s) {changed}: {[before[i] for i in changed]} -> {[after[i] for i in changed]}', cls=f'{name}-{n}'):
+        return S.result()
+  return S.result()
+
+
 def bounded_algebra(p):
   S = Search(p, dict(metrics='every shipped mergeable metric', states='empty + 3 states from disjoint data slices', laws='assoc, commut (unordered), neutral both sides, operand intact, no leak, repeatable result'))
   only = (S.only or {}).get('metric')
